@@ -178,6 +178,8 @@ class Executor:
     def coerce(self, v, t, st):
         if isinstance(v, Unknown):
             return self.fresh_of_type(t, st, "unk")
+        if isinstance(t, Opaque) and t.nm in ("Float", "StrT", "Any") and not (isinstance(v, Val) and v.t == t):
+            return self.fresh_of_type(t, st, "untracked")       # floats and strings are not tracked
         if isinstance(v, Val):
             if v.t == t:
                 return v
@@ -785,6 +787,11 @@ class Executor:
             if a.parts and a.parts[0] == "items" and len(a.parts[1]) == 1:
                 return Val(t, z3.Concat(a.z, b.z), parts=("cons", a.parts[1][0], b))
             return Val(t, z3.Concat(a.z, b.z), parts=("concat", a, b))
+        if any(isinstance(x, PyConst) and isinstance(x.v, float) for x in (l, r)) or isinstance(op, ast.Div):
+            return Unknown("float arithmetic")
+        if any(isinstance(x, PyConst) and isinstance(x.v, str) for x in (l, r)) or \
+                any(isinstance(x, Val) and isinstance(x.t, Opaque) and x.t.nm in ("StrT", "Float") for x in (l, r)):
+            return Unknown("string/float value")
         a, b = self.as_int(l, st), self.as_int(r, st)
         if isinstance(op, ast.Add):
             return int_val(a.z + b.z)
@@ -801,6 +808,8 @@ class Executor:
             if isinstance(op, ast.FloorDiv):
                 return int_val(q)
             return int_val(a.z - b.z * q)
+        if self.lenient:
+            return Unknown(f"operator {type(op).__name__}")
         raise Untranslatable(f"binary operator {type(op).__name__}")
 
     def fork_raise(self, st, cond, exc):
